@@ -54,7 +54,7 @@ func record(raw []byte) []byte {
 // build: BuildHandshakeState of a connection prepared by `prep`; the record, or why not.
 func build(sni string, id tls.ClientHelloID, spec *tls.ClientHelloSpec) (rec []byte, err error) {
 	p, pv := vh.Recover(func() {
-		uc := tls.UClient(nullConn{}, &tls.Config{ServerName: sni, InsecureSkipVerify: true}, id)
+		uc := tls.UClient(nullConn{}, &tls.Config{ServerName: sni, InsecureSkipVerify: true, OmitEmptyPsk: true}, id)
 		if spec != nil {
 			if err = uc.ApplyPreset(spec); err != nil {
 				return
@@ -217,38 +217,38 @@ func (rn *runner) fp(f flags, rec []byte) (*tls.ClientHelloSpec, error) {
 	return s, err
 }
 
-// roundTrip: one hello (rec1, built for sniA) under one flag set.
-func (rn *runner) roundTrip(name string, rec1 []byte, f flags, coqLimit int) {
-	c := rn.c
-	rn.idx++
-	key := fmt.Sprintf("%s#%d/%s", name, rn.idx, f.String())
-	in := map[string]any{"id": name, "flags": f.String(), "hello_hex": vh.Hex(rec1)}
-	c.Count("roundtrip")
-	spec, err := rn.fp(f, rec1)
-	if err != nil {
-		// a hello the library built itself must be representable; without AllowBluntMimicry an
-		// extension type FromRaw cannot rebuild is a documented refusal, counted not failed
-		c.Count("fingerprint-refused:" + clip(err.Error(), 40))
-		if strings.HasPrefix(err.Error(), "panic") {
-			c.Fail("shape/"+name+"/fingerprint-panic", "FingerprintClientHello panicked on a hello the library built", in, err.Error(), "a spec")
+// recVers: the record-layer version the capture is wrapped in (FromRaw copies it to TLSVersMin).
+func reRecord(rec []byte, minor byte) []byte {
+	out := append([]byte{}, rec...)
+	out[2] = minor
+	return out
+}
+
+func dropExt(es []wext, id uint16) []wext {
+	var t []wext
+	for _, e := range es {
+		if e.id != id {
+			t = append(t, e)
 		}
-		return
 	}
-	rec2, err := build(sniB, tls.HelloCustom, spec)
-	if err != nil {
-		c.Count("fail:rebuild")
-		c.Fail("shape/"+name+"/rebuild-error", "ApplyPreset + BuildHandshakeState failed on the fingerprint of a hello the library built", in, err.Error(), "a ClientHello")
-		return
+	return t
+}
+
+func hasExt(es []wext, id uint16) bool {
+	for _, e := range es {
+		if e.id == id {
+			return true
+		}
 	}
-	h1, ok1 := parse(rec1)
-	h2, ok2 := parse(rec2)
-	if !ok1 || !ok2 {
-		c.Fail("shape/"+name+"/unparsable", "strict parse of the hello failed", in, fmt.Sprint(ok1, ok2), "two well-framed hellos")
-		return
-	}
+	return false
+}
+
+// compare two parsed hellos modulo the per-connection holes; report under prefix/<what>
+func (rn *runner) compare(prefix string, in any, h1, h2 *whello, e1, e2 []wext) {
+	c := rn.c
 	fail := func(what string, got, want any) {
 		c.Count("fail:shape")
-		c.Fail("shape/"+name+"/"+what, "regenerated hello differs from the captured one: "+what, in, got, want)
+		c.Fail(prefix+"/"+what, "regenerated hello differs from the captured one: "+what, in, got, want)
 	}
 	if h1.vers != h2.vers {
 		fail("legacy-version", h2.vers, h1.vers)
@@ -259,21 +259,6 @@ func (rn *runner) roundTrip(name string, rec1 []byte, f flags, coqLimit int) {
 	if !bytes.Equal(h1.comp, h2.comp) {
 		fail("compression-methods", h2.comp, h1.comp)
 	}
-	// AlwaysAddPadding may add a padding extension the capture did not have: compare modulo that
-	e1, e2 := h1.exts, h2.exts
-	had := false
-	for _, e := range e1 {
-		had = had || e.id == 21
-	}
-	if f.always && !had {
-		var t []wext
-		for _, e := range e2 {
-			if e.id != 21 {
-				t = append(t, e)
-			}
-		}
-		e2 = t
-	}
 	var o1, o2 []uint16
 	for _, e := range e1 {
 		o1 = append(o1, ung(e.id))
@@ -283,24 +268,72 @@ func (rn *runner) roundTrip(name string, rec1 []byte, f flags, coqLimit int) {
 	}
 	if fmt.Sprint(o1) != fmt.Sprint(o2) {
 		fail("extension-order", o2, o1)
-	} else {
-		for i := range e1 {
-			id, b1 := norm(e1[i])
-			_, b2 := norm(e2[i])
-			if b1 != b2 {
-				fail(fmt.Sprintf("extension-body-%d", id), b2, b1)
-			}
+		return
+	}
+	for i := range e1 {
+		id, b1 := norm(e1[i])
+		_, b2 := norm(e2[i])
+		if b1 != b2 {
+			fail(fmt.Sprintf("extension-body-%d", id), b2, b1)
 		}
 	}
+}
+
+// roundTrip: one hello (rec1, built for sniA) under one flag set: capture -> fingerprint ->
+// regenerate (rec2) -> fingerprint -> regenerate again (rec3).
+func (rn *runner) roundTrip(name string, rec1 []byte, f flags, coqLimit int) {
+	c := rn.c
+	rn.idx++
+	key := fmt.Sprintf("%s#%d/%s", name, rn.idx, f.String())
+	in := map[string]any{"id": name, "flags": f.String(), "hello_hex": vh.Hex(rec1)}
+	c.Count("roundtrip")
+	spec, err := rn.fp(f, rec1)
+	if err != nil {
+		// without AllowBluntMimicry an extension type FromRaw cannot rebuild is a documented refusal
+		c.Count("fingerprint-refused:" + clip(err.Error(), 40))
+		if strings.HasPrefix(err.Error(), "panic") {
+			c.Fail("shape/"+name+"/fingerprint-panic", "FingerprintClientHello panicked on a hello the library built", in, err.Error(), "a spec")
+		}
+		return
+	}
+	term1, term1ok := specTerm(spec) // before ApplyPreset mutates the extension objects
+	rec2, err := build(sniB, tls.HelloCustom, spec)
+	if err != nil {
+		c.Count("fail:rebuild")
+		c.Fail("shape/"+name+"/rebuild-error", "ApplyPreset + BuildHandshakeState failed on the fingerprint of a hello the library built", in, err.Error(), "a ClientHello")
+		return
+	}
+	rec2 = reRecord(rec2, rec1[2])
+	h1, ok1 := parse(rec1)
+	h2, ok2 := parse(rec2)
+	if !ok1 || !ok2 {
+		c.Fail("shape/"+name+"/unparsable", "strict parse of the hello failed", in, fmt.Sprint(ok1, ok2), "two well-framed hellos")
+		return
+	}
+	// what the flags legitimately change: AlwaysAddPadding may add a padding extension the capture did
+	// not have; RealPSKResumption turns pre_shared_key into per-connection material that is only sent
+	// with a session (none here)
+	e1, e2 := h1.exts, h2.exts
+	had := hasExt(e1, 21)
+	hadPSK := hasExt(e1, 41)
+	addedPad := f.always && !had
+	if addedPad {
+		e2 = dropExt(e2, 21)
+	}
+	realPSK := f.real && hadPSK
+	if realPSK {
+		e1, e2 = dropExt(e1, 41), dropExt(e2, 41)
+	}
+	rn.compare("shape/"+name, in, h1, h2, e1, e2)
 	c.Count("check:shape")
-	if !(f.always && !had) {
+	if !addedPad && !realPSK {
 		c.Count("check:length")
 		if len(rec1) != len(rec2) {
 			c.Count("fail:length")
 			c.Fail("length/"+name, "same-length server name and equal-size per-connection parts, but the total length differs", in, len(rec2), len(rec1))
 		}
 	}
-	// idempotence
+	// idempotence: fingerprint of the regenerated hello, and the hello regenerated from THAT
 	spec2, err := rn.fp(f, rec2)
 	if err != nil {
 		c.Count("fail:idempotent")
@@ -308,27 +341,72 @@ func (rn *runner) roundTrip(name string, rec1 []byte, f flags, coqLimit int) {
 		return
 	}
 	c.Count("check:idempotent")
+	term2, term2ok := specTerm(spec2)
 	t1, t2 := typesOf(spec), typesOf(spec2)
-	if f.always && !had {
+	if addedPad {
 		t1 = strings.ReplaceAll(t1, "UtlsPaddingExtension ", "")
 		t2 = strings.ReplaceAll(t2, "UtlsPaddingExtension ", "")
+	}
+	if realPSK {
+		t1 = strings.ReplaceAll(t1, "UtlsPreSharedKeyExtension ", "")
+		t2 = strings.ReplaceAll(t2, "UtlsPreSharedKeyExtension ", "")
 	}
 	if t1 != t2 || fmt.Sprint(spec.CipherSuites) != fmt.Sprint(spec2.CipherSuites) || !bytes.Equal(spec.CompressionMethods, spec2.CompressionMethods) ||
 		spec.TLSVersMin != spec2.TLSVersMin || spec.TLSVersMax != spec2.TLSVersMax {
 		c.Count("fail:idempotent")
-		c.Fail("idempotent/"+name, "fingerprinting the regenerated hello gives a different spec", in, t2, t1)
+		c.Fail("idempotent/"+name, "fingerprinting the regenerated hello gives a different spec", in,
+			map[string]any{"types": t2, "suites": spec2.CipherSuites, "vmin": spec2.TLSVersMin, "vmax": spec2.TLSVersMax},
+			map[string]any{"types": t1, "suites": spec.CipherSuites, "vmin": spec.TLSVersMin, "vmax": spec.TLSVersMax})
 	}
-	// Coq cases on short hellos
-	if len(rec1) <= coqLimit && len(rec2) <= coqLimit {
-		if t, ok := specTerm(spec2); ok {
-			c.Case("fp", fmt.Sprintf("CFp %s %s %s %s %s", vh.Bool(f.blunt), vh.Bool(f.always), vh.Bool(f.real), vh.Bytes(rec2), t),
-				key, len(spec2.Extensions) > 0, map[string]any{"id": name, "flags": f.String(), "len": len(rec2)})
+	if rec3, err := build(sniA, tls.HelloCustom, spec2); err != nil {
+		c.Count("fail:idempotent")
+		c.Fail("idempotent/"+name, "the second generation cannot be built", in, err.Error(), "a ClientHello")
+	} else if h3, ok := parse(rec3); ok {
+		c.Count("check:second-generation")
+		rn.compare("idempotent/"+name, in, h2, h3, h2.exts, h3.exts)
+		if len(rec3) != len(rec2) {
+			c.Count("fail:idempotent")
+			c.Fail("idempotent/"+name, "the second generation has a different length than the first", in, len(rec3), len(rec2))
 		}
-		if !(f.always && !had) {
-			c.OracleCase("idem", fmt.Sprintf("CIdem %s %s %s %s %s", vh.Bool(f.blunt), vh.Bool(f.always), vh.Bool(f.real), vh.Bytes(rec1), vh.Bytes(rec2)),
+	}
+	// Coq cases: the model must reproduce both fingerprints (version bounds, suites, extensions,
+	// padding target), and the idempotence oracle is evaluated by the model on the two byte strings
+	if len(rec1) <= coqLimit && len(rec2) <= coqLimit {
+		if term1ok {
+			c.Case("fp", fmt.Sprintf("CFp %s %s %s %s %s", vh.Bool(f.blunt), vh.Bool(f.always), vh.Bool(f.real), packed(rec1), term1),
+				key+"/captured", len(h1.exts) > 0, map[string]any{"id": name, "flags": f.String(), "len": len(rec1)})
+		}
+		if term2ok {
+			c.Case("fp", fmt.Sprintf("CFp %s %s %s %s %s", vh.Bool(f.blunt), vh.Bool(f.always), vh.Bool(f.real), packed(rec2), term2),
+				key+"/regenerated", len(h2.exts) > 0, nil)
+		}
+		if !addedPad && !realPSK {
+			c.OracleCase("idem", fmt.Sprintf("CIdem %s %s %s %s %s", vh.Bool(f.blunt), vh.Bool(f.always), vh.Bool(f.real), packed(rec1), packed(rec2)),
 				"idempotent/"+name, "model fingerprints of the captured and the regenerated hello differ", in, len(h1.exts) > 0)
 		}
 	}
+}
+
+// packed: a byte string as `(pk len [w1;...]%uint63)`, 7 bytes per primitive integer (Corr/C07Corr.v)
+func packed(b []byte) string {
+	if len(b) == 0 {
+		return "[]"
+	}
+	var sb strings.Builder
+	fmt.Fprintf(&sb, "(pk %d [", len(b))
+	for i := 0; i < len(b); i += 7 {
+		j := min(i+7, len(b))
+		var w uint64
+		for _, x := range b[i:j] {
+			w = w<<8 | uint64(x)
+		}
+		if i > 0 {
+			sb.WriteByte(';')
+		}
+		fmt.Fprintf(&sb, "%d", w)
+	}
+	sb.WriteString("]%uint63)")
+	return sb.String()
 }
 
 func typesOf(s *tls.ClientHelloSpec) string {
@@ -346,20 +424,25 @@ func clip(s string, n int) string {
 	return s
 }
 
-// genSpec: a small custom spec from simple extensions in random order.
-func (rn *runner) genSpec() *tls.ClientHelloSpec {
+// genSpec: a custom spec of one of several shapes (the name goes into the failure keys):
+//
+//	tls13        3-10 simple extensions in random order + supported_versions/key_share, GREASE
+//	legacy       TLS 1.0 / 1.1 / 1.2 stack: TLSVersMin/Max set, no supported_versions (legacy_version 0x0301..0x0303)
+//	legacy-sv    supported_versions listing only TLS 1.1/1.0/1.2
+//	scsv         cipher-suite list with the signalling values 0x5600 / 0x00ff and unknown code points
+//	psk-padding  padding extension + non-empty FakePreSharedKeyExtension, unpadded length in BoringPadding's range
+//	psk          non-empty FakePreSharedKeyExtension without padding
+//	holes        non-default sizes of the per-connection holes (session ticket extension, ALPN, cookie-less)
+func (rn *runner) genSpec(shape string) *tls.ClientHelloSpec {
 	r := rn.r
 	g := extcoq.GreaseValue
 	pool := []func() tls.TLSExtension{
 		func() tls.TLSExtension { return &tls.SNIExtension{} },
 		func() tls.TLSExtension { return &tls.ExtendedMasterSecretExtension{} },
 		func() tls.TLSExtension { return &tls.UtlsGREASEExtension{} },
-		func() tls.TLSExtension {
-			return &tls.SupportedCurvesExtension{Curves: []tls.CurveID{tls.CurveID(g(r)), tls.X25519, tls.CurveP256}}
-		},
 		func() tls.TLSExtension { return &tls.SupportedPointsExtension{SupportedPoints: []byte{0}} },
 		func() tls.TLSExtension {
-			return &tls.SignatureAlgorithmsExtension{SupportedSignatureAlgorithms: []tls.SignatureScheme{tls.ECDSAWithP256AndSHA256, tls.PSSWithSHA256, tls.PKCS1WithSHA256}}
+			return &tls.SignatureAlgorithmsExtension{SupportedSignatureAlgorithms: []tls.SignatureScheme{tls.ECDSAWithP256AndSHA256, tls.PSSWithSHA256, tls.PKCS1WithSHA256, tls.ECDSAWithP384AndSHA384, tls.PSSWithSHA384, tls.PKCS1WithSHA384}}
 		},
 		func() tls.TLSExtension { return &tls.ALPNExtension{AlpnProtocols: []string{"h2", "http/1.1"}} },
 		func() tls.TLSExtension { return &tls.StatusRequestExtension{} },
@@ -374,57 +457,110 @@ func (rn *runner) genSpec() *tls.ClientHelloSpec {
 		},
 		func() tls.TLSExtension { return &tls.FakeRecordSizeLimitExtension{Limit: 0x4001} },
 		func() tls.TLSExtension { return &tls.ApplicationSettingsExtension{SupportedProtocols: []string{"h2"}} },
-		func() tls.TLSExtension {
-			return &tls.UtlsPaddingExtension{GetPaddingLen: tls.BoringPaddingStyle}
-		},
 	}
-	idx := r.Perm(len(pool))[:3+r.Intn(8)]
 	s := &tls.ClientHelloSpec{CompressionMethods: []byte{0}}
-	for _, v := range [][]uint16{{g(r), tls.TLS_AES_128_GCM_SHA256, tls.TLS_CHACHA20_POLY1305_SHA256}, {tls.TLS_ECDHE_ECDSA_WITH_AES_128_GCM_SHA256, tls.TLS_ECDHE_RSA_WITH_AES_128_GCM_SHA256}}[r.Intn(2)] {
-		s.CipherSuites = append(s.CipherSuites, v)
+	tls13 := shape != "legacy" && shape != "legacy-sv"
+	if tls13 {
+		s.CipherSuites = []uint16{g(r), tls.TLS_AES_128_GCM_SHA256, tls.TLS_AES_256_GCM_SHA384, tls.TLS_CHACHA20_POLY1305_SHA256}
 	}
-	tls13 := r.Intn(3) != 0
-	for _, i := range idx {
+	s.CipherSuites = append(s.CipherSuites, tls.TLS_ECDHE_ECDSA_WITH_AES_128_GCM_SHA256, tls.TLS_ECDHE_RSA_WITH_AES_128_GCM_SHA256,
+		tls.TLS_ECDHE_RSA_WITH_AES_256_GCM_SHA384, tls.TLS_RSA_WITH_AES_128_CBC_SHA)
+	if shape == "scsv" || r.Intn(5) == 0 {
+		extra := [][]uint16{{0x5600}, {0x00ff}, {0x00ff, 0x5600}, {0x1234}, {0x5600, 0xfefe}}[r.Intn(5)]
+		if shape == "scsv" {
+			extra = [][]uint16{{0x5600}, {0x00ff, 0x5600}, {0x5600, 0x00ff, 0x1234}}[r.Intn(3)]
+		}
+		pos := r.Intn(len(s.CipherSuites) + 1)
+		s.CipherSuites = append(s.CipherSuites[:pos], append(extra, s.CipherSuites[pos:]...)...)
+	}
+	k := 3 + r.Intn(8)
+	if shape == "psk-padding" || shape == "psk" {
+		k = len(pool) // long enough for the padding range
+	}
+	for _, i := range r.Perm(len(pool))[:k] {
 		s.Extensions = append(s.Extensions, pool[i]())
 	}
-	if tls13 {
-		s.CipherSuites = append(s.CipherSuites, tls.TLS_AES_256_GCM_SHA384)
+	s.Extensions = append(s.Extensions, &tls.SupportedCurvesExtension{Curves: []tls.CurveID{tls.CurveID(g(r)), tls.X25519, tls.CurveP256}})
+	switch {
+	case tls13:
 		s.Extensions = append(s.Extensions,
 			&tls.SupportedVersionsExtension{Versions: []uint16{g(r), tls.VersionTLS13, tls.VersionTLS12}},
 			&tls.KeyShareExtension{KeyShares: []tls.KeyShare{{Group: tls.CurveID(g(r)), Data: []byte{0}}, {Group: tls.X25519}}})
-		has := false
-		for _, e := range s.Extensions {
-			if c, ok := e.(*tls.SupportedCurvesExtension); ok {
-				has = true
-				_ = c
-			}
-		}
-		if !has {
-			s.Extensions = append(s.Extensions, &tls.SupportedCurvesExtension{Curves: []tls.CurveID{tls.X25519, tls.CurveP256}})
-		}
-		r.Shuffle(len(s.Extensions), func(i, j int) { s.Extensions[i], s.Extensions[j] = s.Extensions[j], s.Extensions[i] })
-	} else {
-		s.TLSVersMin, s.TLSVersMax = tls.VersionTLS10, tls.VersionTLS12
+	case shape == "legacy-sv":
+		s.Extensions = append(s.Extensions, &tls.SupportedVersionsExtension{Versions: [][]uint16{
+			{tls.VersionTLS11, tls.VersionTLS10}, {tls.VersionTLS12, tls.VersionTLS11}, {tls.VersionTLS10}}[r.Intn(3)]})
+	default:
+		v := [][2]uint16{{tls.VersionTLS10, tls.VersionTLS10}, {tls.VersionTLS10, tls.VersionTLS11}, {tls.VersionTLS11, tls.VersionTLS11},
+			{tls.VersionTLS10, tls.VersionTLS12}, {tls.VersionTLS12, tls.VersionTLS12}}[r.Intn(5)]
+		s.TLSVersMin, s.TLSVersMax = v[0], v[1]
+	}
+	r.Shuffle(len(s.Extensions), func(i, j int) { s.Extensions[i], s.Extensions[j] = s.Extensions[j], s.Extensions[i] })
+	if shape == "psk-padding" || (shape != "psk" && r.Intn(3) == 0) {
+		s.Extensions = append(s.Extensions, &tls.UtlsPaddingExtension{GetPaddingLen: tls.BoringPaddingStyle})
+	}
+	if shape == "psk-padding" || shape == "psk" {
+		s.Extensions = append(s.Extensions, fakePSK(r, 1+r.Intn(2)))
 	}
 	return s
 }
 
+func fakePSK(r *rand.Rand, n int) *tls.FakePreSharedKeyExtension {
+	e := &tls.FakePreSharedKeyExtension{}
+	for i := 0; i < n; i++ {
+		label, binder := make([]byte, 16+r.Intn(48)), make([]byte, 32)
+		r.Read(label)
+		r.Read(binder)
+		e.Identities = append(e.Identities, tls.PskIdentity{Label: label, ObfuscatedTicketAge: r.Uint32()})
+		e.Binders = append(e.Binders, binder)
+	}
+	return e
+}
+
+// pskParrot: the spec of a PSK parrot with its pre_shared_key extension replaced by a filled
+// FakePreSharedKeyExtension (what a capture of a resuming browser looks like).
+func pskParrotSpec(p parrot, r *rand.Rand) *tls.ClientHelloSpec {
+	spec, err := tls.UTLSIdToSpec(p.ID)
+	if err != nil {
+		return nil
+	}
+	has := false
+	for i, e := range spec.Extensions {
+		if _, ok := e.(tls.PreSharedKeyExtension); ok {
+			spec.Extensions[i] = fakePSK(r, 1)
+			has = true
+		}
+	}
+	if !has {
+		return nil
+	}
+	return &spec
+}
+
+var shapes = []string{"tls13", "legacy", "legacy-sv", "scsv", "psk-padding", "psk", "tls13", "legacy", "scsv", "psk-padding"}
+
 func run(c *vh.Ctx) {
 	rn := &runner{c: c, r: c.Rng}
 	fls := []flags{{false, false, false}, {true, true, false}, {false, false, true}}
-	coqLimit := 300
+	coqLimit := 700
 	if c.Tier != "quick" {
-		coqLimit = 700
+		coqLimit = 2000
 	}
-	// parrots
+	// parrots (the PSK ones as resuming hellos with a filled pre_shared_key)
 	for _, p := range parrots() {
 		rec1, err := build(sniA, p.ID, nil)
+		name := p.Name
+		if err != nil {
+			if spec := pskParrotSpec(p, rn.r); spec != nil {
+				rec1, err = build(sniA, tls.HelloCustom, spec)
+				name += "-resuming"
+			}
+		}
 		if err != nil {
 			c.Count("parrot-build-error")
 			continue
 		}
 		for _, f := range fls {
-			rn.roundTrip(p.Name, rec1, f, coqLimit)
+			rn.roundTrip(name, rec1, f, coqLimit)
 		}
 	}
 	// randomized fingerprints
@@ -436,13 +572,18 @@ func run(c *vh.Ctx) {
 		}
 		rn.roundTrip("Randomized", rec1, fls[rn.r.Intn(3)], coqLimit)
 	}
-	// generated custom specs
-	for i := 0; i < c.N; i++ {
-		rec1, err := build(sniA, tls.HelloCustom, rn.genSpec())
+	// generated custom specs of every shape, under every flag set in turn, with record-layer version variants
+	for i := 0; i < 2*c.N; i++ {
+		shape := shapes[i%len(shapes)]
+		rec1, err := build(sniA, tls.HelloCustom, rn.genSpec(shape))
 		if err != nil {
-			c.Count("custom-build-error:" + clip(err.Error(), 50))
+			c.Count("custom-build-error:" + shape + ":" + clip(err.Error(), 50))
 			continue
 		}
-		rn.roundTrip("Custom", rec1, fls[i%3], coqLimit)
+		// record-layer version: 0x0301 as most stacks, or anything up to the legacy_version
+		if legacyMinor := rec1[10]; rn.r.Intn(2) == 0 && legacyMinor >= 1 {
+			rec1 = reRecord(rec1, byte(1+rn.r.Intn(int(legacyMinor))))
+		}
+		rn.roundTrip("Custom-"+shape, rec1, fls[(i/len(shapes)+i)%3], coqLimit)
 	}
 }
